@@ -351,6 +351,11 @@ func (whEngine) Generate(p *sim.Plan, g *sim.Rng) {
 					dims = append(dims, d)
 				}
 				sort.Strings(dims)
+				if len(dims) > 1 && g.Bool(0.25) {
+					// the update withdraws the guarantee for one dimension (children may still declare one, possibly an explicit 0)
+					i := g.Intn(len(dims))
+					dims = append(append([]string{}, dims[:i]...), dims[i+1:]...)
+				}
 				op.Min = whGenRL(g, dims, cur.Max)
 			case 3:
 				dims := []string{}
@@ -822,6 +827,13 @@ func whWellFormed(committed map[string]*mq) (string, string) {
 			}
 			if !same {
 				return "dimension-mismatch", fmt.Sprintf("quota %s declares max dims %v, its parent %s %v", n, whKeys(q.Max), q.Parent, whKeys(p.Max))
+			}
+			// "resource dimensions agree along the tree", min side: a guarantee is only declared below a parent that declares
+			// a guarantee for the same dimension (an explicit 0 is a declaration)
+			for _, d := range whKeys(q.Min) {
+				if _, ok := p.Min[d]; !ok {
+					return "min-dimension-mismatch", fmt.Sprintf("quota %s declares min for %s, its parent %s declares min only for %v", n, d, q.Parent, whKeys(p.Min))
+				}
 			}
 			if p.Tree != q.Tree {
 				return "tree-id-mismatch", fmt.Sprintf("quota %s is in tree %q, its parent %s in %q", n, q.Tree, q.Parent, p.Tree)
